@@ -134,3 +134,127 @@ Proof.
   cbv zeta. split; [apply sorts_by_sizeb_sound; vm_compute; reflexivity|].
   split; [apply sorts_by_sizeb_sound; vm_compute; reflexivity|]. split; vm_compute; reflexivity.
 Qed.
+
+(* ---- visit links ---- *)
+(** LINKS C15 o C14 and C15 o C13.  The models above traverse the graph by their own
+    structural recursions; the Rust algorithms are callbacks on the events of the visits of
+    webgraph/src/visits.  The theorems below identify the two through the C14 / C13 models
+    of the visits:
+    - [tarjan_run] is the fold of the Rust callback over the events the [SeqPred] machine
+      emits for [visit(0..n)], cut at the first [Break], followed by the drain of
+      [visit.stack()];
+    - [Scc.top_sort] is the C14 model of [top_sort], [Scc.dfs_visit] the marks of a C14
+      visit; [symm_seq] and [kosaraju] are the fold of their callback over the events of ONE
+      [SeqNoPred] visit ([kosaraju]: on the transpose, with the C14 [top_sort] as roots);
+    - [Scc.bfs_visit], under every schedule, marks the nodes the C13 visits mark (the
+      sequential one, and the parallel one under every schedule of the C13 model), and
+      [symm_par] is the Rust loop over the C13 parallel visits. *)
+From WG Require Import Visits.Bfs Visits.Dfs Visits.DfsStatements Links.VisitLinkStatements
+  Links.VisitLinkTarjanFacts Links.VisitLinkSccFacts Links.VisitLinkSccBfsFacts.
+
+Theorem C15_link_tarjan_fold : S_link_tarjan_fold.
+Proof. exact link_tarjan_fold. Qed.
+Print Assumptions C15_link_tarjan_fold.
+
+Theorem C15_link_tarjan_result : S_link_tarjan_result.
+Proof. exact link_tarjan_result. Qed.
+Print Assumptions C15_link_tarjan_result.
+
+Theorem C15_link_top_sort : S_link_top_sort.
+Proof. exact link_top_sort. Qed.
+Print Assumptions C15_link_top_sort.
+
+Theorem C15_link_dfs_visit : S_link_dfs_visit.
+Proof. exact link_dfs_visit. Qed.
+Print Assumptions C15_link_dfs_visit.
+
+Theorem C15_link_comp_loop_dfs : S_link_comp_loop_dfs.
+Proof. exact link_comp_loop_dfs. Qed.
+Print Assumptions C15_link_comp_loop_dfs.
+
+Theorem C15_link_symm_seq_fold : S_link_symm_seq_fold.
+Proof. exact link_symm_seq_fold. Qed.
+Print Assumptions C15_link_symm_seq_fold.
+
+Theorem C15_link_kosaraju_fold : S_link_kosaraju_fold.
+Proof. exact link_kosaraju_fold. Qed.
+Print Assumptions C15_link_kosaraju_fold.
+
+Theorem C15_link_bfs_visit : S_link_bfs_visit.
+Proof. exact link_bfs_visit. Qed.
+Print Assumptions C15_link_bfs_visit.
+
+Theorem C15_link_bfs_visit_par : S_link_bfs_visit_par.
+Proof. exact link_bfs_visit_par. Qed.
+Print Assumptions C15_link_bfs_visit_par.
+
+Theorem C15_link_symm_par_fold : S_link_symm_par_fold.
+Proof. exact link_symm_par_fold. Qed.
+Print Assumptions C15_link_symm_par_fold.
+
+(** non-vacuity of the Tarjan link on the early-exit graph of [C15_nonvacuous_tarjan_early]:
+    the machine emits 13 events, the callback breaks on the 7th (the revisit of the root
+    from node 3 when every node is discovered), [visit.stack()] = 2, 1, 0 is drained *)
+Example C15_link_tarjan_nonvacuous :
+  let g := [[1];[2;0];[3];[1;0]] in
+  exists evs cf,
+    DfsM.dfs DfsM.Pred (gN g) DfsM.no_filter (DfsM.nodes (gN g)) [] [] = DfsOk evs cf
+    /\ length evs = 13
+    /\ (let '(st, brk, delivered) := fold_until_break tarjan_handler (t_init 4) evs in
+        brk = true /\ length delivered = 7 /\ t_high st = [4;3;2;0]
+        /\ lnat (tl (path_after delivered)) = [2;1;0])
+    /\ tarjan_run g = tarjan_on_events 4 evs
+    /\ t_high (fst (tarjan_run g)) = [0;0;0;0].
+Proof.
+  cbv zeta. eexists. eexists. split; [vm_compute; reflexivity|].
+  repeat split; vm_compute; reflexivity.
+Qed.
+
+(** ... and on a graph with three components where the visit runs to completion *)
+Example C15_link_tarjan_nonvacuous_complete :
+  let g := [[1];[2];[0;3];[4];[3];[0]] in
+  wf_graph g /\ tarjan_early g = false /\ tarjan g = ([1;1;1;0;0;2], 3)
+  /\ exists evs cf,
+       DfsM.dfs DfsM.Pred (gN g) DfsM.no_filter (DfsM.nodes (gN g)) [] [] = DfsOk evs cf
+       /\ tarjan_run g = tarjan_on_events 6 evs.
+Proof.
+  cbv zeta.
+  assert (H : wf_graph [[1];[2];[0;3];[4];[3];[0]]) by (apply wf_graphb_spec; vm_compute; reflexivity).
+  split; [exact H|]. split; [vm_compute; reflexivity|]. split; [vm_compute; reflexivity|].
+  exact (C15_link_tarjan_fold _ H).
+Qed.
+
+Example C15_link_kosaraju_nonvacuous :
+  let g := [[1];[2];[0;3];[4];[3];[0]] in
+  SccM.top_sort g = [5;0;1;2;3;4]
+  /\ DfsM.top_sort (gN g) = Some [5;0;1;2;3;4]%N
+  /\ kosaraju g (transpose g) = ([1;1;1;2;2;0], 3)
+  /\ (exists evs cf,
+        DfsM.dfs DfsM.NoPred (gN (transpose g)) DfsM.no_filter [5;0;1;2;3;4]%N [] [] = DfsOk evs cf
+        /\ fold_left comp_handler evs (repeat 0 6, 0) = ([1;1;1;2;2;0], 3))
+  /\ symm_seq [[1];[0;2];[1];[4];[3];[]] = ([0;0;0;1;1;2], 3).
+Proof.
+  cbv zeta. split; [vm_compute; reflexivity|]. split; [vm_compute; reflexivity|].
+  split; [vm_compute; reflexivity|]. split; [|vm_compute; reflexivity].
+  eexists. eexists. split; vm_compute; reflexivity.
+Qed.
+
+(** the breadth-first link is an equality of SETS: the two models list the marked nodes in
+    different orders (the C15 model pushes a level in reverse) *)
+Example C15_link_bfs_visit_nonvacuous :
+  let g := [[1;2];[3];[4];[];[]] in
+  bfs_visit id_sched g 0 [] = [3;4;2;1;0]
+  /\ fst (bfs_seq (gN g) BfsM.no_filter [0%N] []) = [4;3;2;1;0]%N
+  /\ bfs_visit (fun _ l => rev l) g 1 [3] = [1;3]
+  /\ fst (bfs_seq (gN g) BfsM.no_filter [1%N] [3%N]) = [1;3]%N.
+Proof. cbv zeta. repeat split; vm_compute; reflexivity. Qed.
+
+(** [symm_par] on the C13 parallel visits, with schedules that differ on the two sides *)
+Example C15_link_symm_par_nonvacuous :
+  let g := [[1];[0;2];[1];[4];[3];[]] in
+  let sch := fun (r d : N) (l : list (N * N)) => if N.even (r + d) then rev l else l in
+  symm_par (fun _ l => rev l) g = ([0;0;0;1;1;2], 3)
+  /\ fold_left (par_comp_step (gN g) sch) (nseq 0%N 6) ([], repeat 0 6, 0)
+     = ([5;3;4;0;1;2]%N, [0;0;0;1;1;2], 3).
+Proof. cbv zeta. split; vm_compute; reflexivity. Qed.
+(* ---- visit links ---- *)
